@@ -110,13 +110,14 @@ class KeyIds(Obligation):
             r,m=run.check_sat(z3.Not(same.z()))
             if r==z3.sat:
                 scn2=dict(scn); scn2['value']=[model_value(m,x) for x in g['value']]
-                rec['viol']={'kind':'key_id_preimage_differs_from_reference','known_key':None,'scenario':scn2,'predicted':'keyid:?','what':'the bytes hashed into the key id differ from the reference canonical description of the key'}; return rec
+                actual=hashlib.sha256(bytes(model_value(m,x) for x in d.ghost['pre'])).hexdigest()     # the id the crate computes; it differs from the reference id
+                rec['viol']={'kind':'key_id_preimage_differs_from_reference','known_key':None,'scenario':scn2,'predicted':'keyid:'+actual,'what':'the bytes hashed into the key id differ from the reference canonical description of the key'}; return rec
         if len(run.ghost['digests'])!=len(outs):
             rec['viol']={'kind':'key_id_not_a_digest','known_key':None,'scenario':scn,'predicted':'keyid:?','what':'a construction path did not compute the key id as a digest'}; return rec
         if kind not in self.seen: self.seen.add(kind); rec['wit'].append(kind)
         # concrete sample for native validation: the id itself
         kid=hashlib.sha256(bytes(model_value(m0,x) for x in want)).hexdigest()
-        if g['kind']=='ed25519' or g['algs']==['sha256','sha512']: rec['sample']={'scenario':scn,'expect':'keyid:'+kid}
+        if g['kind'] in ('ed25519','ecdsa') or g['algs']==['sha256','sha512']: rec['sample']={'scenario':scn,'expect':'keyid:'+kid}
         return rec
 
 TEMPLATES={
@@ -314,4 +315,53 @@ class KeyJson(Obligation):
             for (k,val) in out[1]: full.append('err' if k!='ok' else ';'.join('%s=%s'%(a,c) for a,c,_ in self.describe(g,val)))
             rec['viol']['predicted']='/'.join(full); return rec
         rec['sample']={'scenario':scn,'expect':'/'.join(pred)}
+        return rec
+
+class RsaPkcs8(Obligation):
+    """derivation of the RSA public key from a PKCS#8 private-key document (`extract_rsa_pub_from_pkcs8` + `write_pkcs1`):
+    the RSAPublicKey it writes carries exactly the modulus and public exponent of the document, each as the DER positive
+    INTEGER it was read from - the same bytes a SubjectPublicKeyInfo of the key holds, hence the same key id"""
+    name='C12.rsa_public_from_pkcs8'
+    hash_order='fixed'
+    def __init__(self,seed=0,known=(),**kw):
+        self.seed=seed
+        self.bounds={'document':'PrivateKeyInfo{0, AlgorithmIdentifier{rsaEncryption, NULL}, OCTET STRING{RSAPrivateKey{0, n, e, <one more INTEGER>}}}',
+                     'modulus n':'3 free bytes, top bit set or clear (with / without the DER sign octet)','public exponent e':'1..4 free bytes, top bit set or clear (with / without the DER sign octet), minimal encoding',
+                     'not covered':'ring\'s own validation of the key pair (RsaKeyPair::from_pkcs8) in front of this code; real key sizes'}
+        self.witnesses=['exponent_with_sign_octet','exponent_without_sign_octet']; self.seen=set()
+    def setup(self,eng,tier):
+        self.eng=eng; self.fn=eng.find_fn('extract_rsa_pub_from_pkcs8')
+    def entry(self,eng): return self.fn
+    def posint(self,run,name,n):
+        """DER content of a positive integer with n value bytes; returns (content bytes, has_sign_octet)"""
+        bs=[z3.BitVec('%s%d'%(name,i),8) for i in range(n)]
+        hi=bool(run.pick(2,name+'_hi'))
+        if hi: run.add(z3.UGE(bs[0],0x80)); return [0]+bs,True
+        run.add(z3.ULT(bs[0],0x80),bs[0]!=0); return bs,False
+    def mk_args(self,run):
+        nc,_=self.posint(run,'n',3)
+        ec,esign=self.posint(run,'e',1+run.pick(4,'elen'))
+        rsa=tlv(0x30,tlv(2,[0])+tlv(2,nc)+tlv(2,ec)+tlv(2,[1]))
+        doc=tlv(0x30,tlv(2,[0])+tlv(0x30,tlv(6,RSA_OID)+[5,0])+tlv(4,rsa))
+        want=tlv(0x30,tlv(2,nc)+tlv(2,ec))
+        return [Ref(Cell(Str(doc,False)))],{'doc':doc,'want':want,'esign':esign}
+    def check(self,run,out,g):
+        rec={'outcome':'?','viol':None,'wit':[],'sample':None,'obl':1}
+        r0,m0=run.check_sat(z3.BoolVal(True))
+        scn=lambda m: {'kind':'rsa_pkcs8','doc':[model_value(m,x) for x in g['doc']]}
+        hx=lambda m,bl: ''.join('%02x'%model_value(m,x) for x in bl)
+        if out[0]!='ret':
+            rec['outcome']='panic'; rec['viol']={'kind':'panic_rsa_pkcs8','known_key':None,'scenario':scn(m0),'predicted':'panic','what':'deriving the RSA public key from a PKCS#8 document panics: '+str(out[1])[:200]}; return rec
+        r=deref(out[1])
+        if r.vname!='Ok':
+            rec['outcome']='err'; rec['viol']={'kind':'wellformed_pkcs8_rejected','known_key':None,'scenario':scn(m0),'predicted':'err','what':'a well-formed RSA PKCS#8 document is rejected'}; return rec
+        rec['outcome']='ok'
+        got=byte_list(r.f[0])
+        same=bytes_eq(got,g['want'])
+        rr,m=run.check_sat(z3.Not(same.z()))
+        if rr==z3.sat:
+            rec['viol']={'kind':'derived_rsa_public_key_differs','known_key':None,'scenario':scn(m),'predicted':'der:'+hx(m,got),'what':'the RSA public key derived from a PKCS#8 document is not RSAPublicKey{n, e} with the integers of the document (so its key id differs from the id of the same key imported as SubjectPublicKeyInfo)'}; return rec
+        w='exponent_with_sign_octet' if g['esign'] else 'exponent_without_sign_octet'
+        if w not in self.seen: self.seen.add(w); rec['wit'].append(w)
+        rec['sample']={'scenario':scn(m0),'expect':'der:'+hx(m0,g['want'])}
         return rec
